@@ -796,9 +796,9 @@ def check_bin(case, ctx):
     xf, yf = x.astype(np.float64), y.astype(np.float64)
     nrm = float(np.sqrt(np.sum(xf * xf)) * np.sqrt(np.sum(yf * yf))) * nblock + 1e-300
     l1, r1 = float(np.sum(np.asarray(ba, dtype=np.float64) * yf)), float(np.sum(xf * np.asarray(ts, dtype=np.float64)))
-    ctx.require(abs(l1 - r1) <= ft * nrm, 'adjoint:bindown-avg/tile-sum', '<bindown(x,avg),y> = %.15g but <x,tile(y,sum)> = %.15g (%s by %s)' % (l1, r1, shape, factor))
+    ctx.within(abs(l1 - r1), ft * nrm, 'adjoint:bindown-avg/tile-sum', '<bindown(x,avg),y> = %.15g but <x,tile(y,sum)> = %.15g (%s by %s)' % (l1, r1, shape, factor))
     l2, r2 = float(np.sum(np.asarray(bs, dtype=np.float64) * yf)), float(np.sum(xf * np.asarray(ta, dtype=np.float64)))
-    ctx.require(abs(l2 - r2) <= ft * nrm, 'adjoint:bindown-sum/tile-avg', '<bindown(x,sum),y> = %.15g but <x,tile(y,avg)> = %.15g (%s by %s)' % (l2, r2, shape, factor))
+    ctx.within(abs(l2 - r2), ft * nrm, 'adjoint:bindown-sum/tile-avg', '<bindown(x,sum),y> = %.15g but <x,tile(y,avg)> = %.15g (%s by %s)' % (l2, r2, shape, factor))
 
 
 # ---- Bayer -------------------------------------------------------------------------------------------
@@ -1135,7 +1135,7 @@ def check_wb(case, ctx):
         per = []
         for k in range(4):
             a = applied[col == k]
-            ctx.require(float(a.max() - a.min()) <= 10 * rt * float(a.max()), 'wb_prescale:%s:site-gain' % cfa, 'sites of one colour got different gains')
+            ctx.within(float(a.max() - a.min()), 10 * rt * float(a.max()), 'wb_prescale:%s:site-gain' % cfa, 'sites of one colour got different gains')
             per.append(g_by_col[k] / float(a.mean()))
         _common_ratio(ctx, per, 'wb_prescale')
         ctx.label('ratio>1' if max(per) > 1 + 1e-6 else 'ratio=1')
@@ -1158,7 +1158,7 @@ def check_wb(case, ctx):
         per = []
         for k in range(3):
             a = app[..., k]
-            ctx.require(float(a.max() - a.min()) <= 10 * rt * float(a.max()), 'wb_postscale:plane-gain', 'one plane got different gains')
+            ctx.within(float(a.max() - a.min()), 10 * rt * float(a.max()), 'wb_postscale:plane-gain', 'one plane got different gains')
             per.append(g3[k] / float(a.mean()))
         _common_ratio(ctx, per, 'wb_postscale')
 
